@@ -158,6 +158,53 @@ def one_name_per_destination(ctx):
     ctx.ok("one-name-per-destination", "table (argument name -> destination)", "-", "%d destinations, each registered once" % n_dest)
 
 
+def settings_numbers_not_narrowed(ctx):
+    """A number read from the configuration text reaches its setting without being cut to fewer bits on the way: inside the configuration
+    scope no 64-bit integer is implicitly converted to 32 bits or less - neither by an IntegralCast nor inside std::optional<int>'s
+    converting constructor (`return v;` with v a long long) - unless a dominating range test mentions the value.  A cut value makes
+    "4294967296" a valid timeout of 0 instead of a configuration error."""
+    P, cg = ctx.prog, ctx.cg
+
+    def bits(t):
+        m = re.match(r"[iu](\d+)$", t or "")
+        return int(m.group(1)) if m else None
+    n_opt = n_cast = 0
+    for u in sorted(config_scope(ctx)):
+        f = P.fns[u]
+        if not f.file.startswith("oomd/") or f.pq.startswith("Oomd::OOMD_TIME_STR"):
+            continue
+        sites = []
+        for i, n in enumerate(f.nodes):
+            if n["k"] == "cast" and n.get("implicit") and n.get("ck") == "IntegralCast":
+                fb, tb = bits(n.get("fromtw")), bits(n.get("tw"))
+                src = f.nodes[f.strip(n["sub"])]
+                if fb and tb and fb > tb and tb <= 32 and src["k"] != "lit" and "cval" not in src:
+                    sites.append((i, n["sub"], "%d-bit value is implicitly cut to %d bits" % (fb, tb)))
+            if n["k"] == "construct" and (n.get("type") or "").startswith("std::optional<") and n.get("ptypes") and n.get("args"):
+                dc, dw = scalar_class(n["type"])
+                sc_, sw = scalar_class(n["ptypes"][0].replace("&&", "").replace("&", "").strip())
+                if dc in ("int", "uint") and sc_ in ("int", "uint", "float"):
+                    n_opt += 1
+                    if sc_ == "float" or (sw and dw and sw > dw):
+                        sites.append((i, n["args"][0], "%s is built from a %s: the conversion inside the optional's constructor cuts it to %d bits" % (
+                            n["type"], n["ptypes"][0], dw)))
+        if not sites:
+            continue
+        ctx.use(f)
+        fl = Flow(P, f, cg=cg)
+        for i, src, why in sites:
+            n_cast += 1
+            txt = f.text(src)
+            g = fl.guards(i) if f.pos_of(i) is not None else []
+            ranged = any(isinstance(k, str) and re.search(r"(?<![\w.])%s(?![\w])" % re.escape(txt), k) and re.search(r"max\(\)|INT_MAX|UINT_MAX|[<>]=? ?\d{4,}", k) for k, p in g)
+            ctx.check(ranged, "settings-number-not-narrowed:%s@%d" % (short(f), f.nodes[i].get("line", 0)), "E-TYPE narrowing", f.loc(i),
+                      "the wider value is range-tested before it is cut", "%s: %s, with no dominating range test on %s - a number that does not fit is "
+                      "accepted as a different number instead of being refused" % (f.pq, why, txt))
+    ctx.counters["optional_int_constructions"] = n_opt
+    ctx.floor("optional_int_constructions", 1, "constructions of an optional integer in the configuration scope")
+    ctx.ok("settings-number-not-narrowed:scan", "E-TYPE narrowing", "-", "%d optional-integer constructions, %d narrowing sites examined" % (n_opt, n_cast))
+
+
 def run(ctx):
     from .C13 import dropin_unit_holds_merged_targets
     dropin_unit_holds_merged_targets(ctx)
@@ -165,6 +212,7 @@ def run(ctx):
     from .C13 import merge_writes_only_overridable_parts
     merge_writes_only_overridable_parts(ctx)
     ruleset_settings_text(ctx)
+    settings_numbers_not_narrowed(ctx)
     # locals / parameters the rules below refer to by name (a rename makes the analysis 'broken', never a violation)
     ctx.anchor(ctx.fn1('Oomd::Util::parseSize'), 'v')
     ctx.anchor(ctx.fn1('Oomd::Util::parseSizeOrPercent'), 'v')
